@@ -1,2 +1,97 @@
-From AG Require Import Str.
-Example placeholder : 1 = 1. Proof. reflexivity. Qed.
+(** C06 — json and logfmt extraction is faithful to the input data. *)
+From Coq Require Import List NArith ZArith Bool Lia.
+From AG Require Import Str F64 Value Json Expr Ops Pipeline Output Str_proofs Json_proofs Split_proofs Ops_proofs Expr_proofs.
+Import ListNotations.
+
+(** every member of the object becomes a field with the same name and value (the last duplicate wins);
+    other fields and the raw line are untouched *)
+Theorem C06_json_members : forall from r inp kvs,
+  get_input r from = Ok inp -> json_parse inp = Some (JObj kvs) ->
+  exists r', json_op from r = Ok (Some r') /\ rraw r' = rraw r /\
+    forall k, get k (rdata r') =
+      match last_member k kvs with
+      | Some v => Some (json_to_value v)
+      | None => get k (rdata r)
+      end.
+Proof. exact json_object_members. Qed.
+Print Assumptions C06_json_members.
+
+(** a line that is not JSON is dropped on its own; a non-object root leaves the row as it is *)
+Theorem C06_not_json_dropped : forall from r inp,
+  get_input r from = Ok inp -> json_parse inp = None -> json_op from r = Err.
+Proof. exact json_not_json_dropped. Qed.
+Print Assumptions C06_not_json_dropped.
+
+Theorem C06_non_object : forall from r inp t,
+  get_input r from = Ok inp -> json_parse inp = Some t -> (forall kvs, t <> JObj kvs) ->
+  json_op from r = Ok (Some r).
+Proof. exact json_non_object_unchanged. Qed.
+Print Assumptions C06_non_object.
+
+(** integers exactly, other numbers as the same double (see C08) *)
+Theorem C06_numbers : forall z f,
+  (in_i64 z = true -> json_to_value (JInt z) = VInt z) /\
+  match json_to_value (JFloat f) with
+  | VFloat g => g = f
+  | VInt n => f_is_integral f = true /\ ftrunc_Z f = n /\ in_i64 n = true
+  | _ => False
+  end.
+Proof.
+  intros z f. split.
+  - intros H. cbn. now rewrite H.
+  - cbn [json_to_value]. destruct (from_float f) eqn:E;
+      try (pose proof (from_float_never_other f) as H; rewrite E in H; exact H).
+    + now apply from_float_int.
+    + now apply from_float_float in E.
+Qed.
+Print Assumptions C06_numbers.
+
+(** printing the row with -o json reproduces the object: the serialiser's tree reads back as the value,
+    and its text parses back to that tree *)
+Theorem C06_value_roundtrip : forall fd fu v,
+  plain_value v = true -> canonical v = true -> json_to_value (value_to_json fd fu v) = v.
+Proof. exact value_json_lossless. Qed.
+Print Assumptions C06_value_roundtrip.
+
+Theorem C06_text_roundtrip : forall fmt t,
+  wf_tree t = true -> (depth t < 127)%nat -> json_parse (json_print fmt t) = Some t.
+Proof. exact json_roundtrip. Qed.
+Print Assumptions C06_text_roundtrip.
+
+(** .key and [index] address the subtree; negative indexes count from the end; out of range fails for that row only *)
+Theorem C06_access : forall k (i : Z) rest m l,
+  walk_refs (RField k :: rest) (VObj m) = match get k m with Some v => walk_refs rest v | None => Err end /\
+  ((0 <= i < Z.of_nat (length l))%Z ->
+     walk_refs (RIndex i :: rest) (VArr l) = match nth_error l (Z.to_nat i) with Some v => walk_refs rest v | None => Err end) /\
+  ((- Z.of_nat (length l) <= i < 0)%Z ->
+     walk_refs (RIndex i :: rest) (VArr l) =
+     match nth_error l (Z.to_nat (Z.of_nat (length l) + i)) with Some v => walk_refs rest v | None => Err end) /\
+  ((i < - Z.of_nat (length l) \/ Z.of_nat (length l) <= i)%Z -> walk_refs (RIndex i :: rest) (VArr l) = Err).
+Proof.
+  intros. split; [apply access_key|]. split; [apply access_index|]. split; [apply access_index_negative | apply access_index_out_of_range].
+Qed.
+Print Assumptions C06_access.
+
+(** logfmt: one field per key=value pair (bare, quoted, bare key), text passed through from_string *)
+Theorem C06_logfmt_pairs : forall pairs,
+  pairs <> [] -> forallb pair_ok pairs = true -> no_empty_before_last pairs = true ->
+  logfmt_parse (join_with 32%N (map render_pair pairs)) = map pair_value pairs.
+Proof. exact logfmt_pairs. Qed.
+Print Assumptions C06_logfmt_pairs.
+
+Theorem C06_logfmt_fields : forall from r inp,
+  get_input r from = Ok inp ->
+  logfmt_op from r =
+  Ok (Some (fold_left (fun acc kv => match snd kv with
+                                     | None => rput (fst kv) VNone acc
+                                     | Some v => rput (fst kv) (from_string v) acc
+                                     end) (logfmt_parse (trim_end inp)) r)).
+Proof. exact logfmt_op_fields. Qed.
+Print Assumptions C06_logfmt_fields.
+
+(** the full statement is false of the faithful model: an empty value loses its key when another
+    pair follows (known finding KF-26, a defect of the logfmt crate) *)
+Theorem C06_refuted_logfmt_empty_value :
+  logfmt_parse (lit "a="""" b=1") = [(lit "b", Some (lit "1"))].
+Proof. exact logfmt_empty_value_dropped. Qed.
+Print Assumptions C06_refuted_logfmt_empty_value.
